@@ -167,6 +167,8 @@ def main(tier, seed):
                 tooltier.add_special_methods(prog, rng, b)
             if i % 4 == 1:
                 tooltier.add_docs(prog, rng)
+            if i % 5 == 3:
+                tooltier.rename_variants(prog, rng)
             ncfg = tooltier.add_cfgs(prog, rng) if i % 4 == 2 else 0
             emit_rust.assign_abi_names(prog)
             d = toolrun.fresh_dir(toolrun.workdir("c09", "p%d_%s" % (i, b)))
